@@ -49,6 +49,7 @@ func c08Defs() []c08Def {
 		return ref.Struct(ref.F{Name: "F", Index: 1, T: t}, ref.F{Name: "Z", Index: 9, T: L(ref.KInt)})
 	}
 	bases := []*ref.T{L(ref.KInt), L(ref.KUint8), L(ref.KBool), L(ref.KFloat32), L(ref.KFloat64), L(ref.KString), L(ref.KBytes), L(ref.KTime), L(ref.KNullString), ref.S0(),
+		L(ref.KNullInt), L(ref.KNullBool), L(ref.KNullFloat), L(ref.KNullTime), L(ref.KInt8), L(ref.KUint64), L(ref.KInt32),
 		raw("complex64"), raw("complex128"), raw("[2]int"), raw("[0]int"), raw("chan int"), raw("func()"), raw("any"), raw("error"), raw("uintptr"), raw("unsafe.Pointer"),
 		// named twins: every rule must follow the kind, not the identity of the unnamed type
 		{K: ref.KInt, Named: "gen.NInt"}, {K: ref.KFloat32, Named: "gen.NFloat32"}, {K: ref.KFloat64, Named: "gen.NFloat64"}, {K: ref.KString, Named: "gen.NString"},
